@@ -55,6 +55,11 @@ theorem errorCip_record (tr : Transport) (raw cmd : Bytes) (cs : Int) (svc : Opt
 
 -- PROPERTY THEOREMS
 
+/-- the services that may legitimately answer general status 6 ("more to come"), regenerated from
+    `MULTI_PACKET_SERVICES` on every run, are exactly Get Attribute List (0x03), Multiple Service Packet (0x0A),
+    Read Tag Fragmented (0x52), Write Tag Fragmented (0x53) and Get Instance Attribute List (0x55) -/
+theorem continuing_services_table : Gen.multiPacketServices = [[3], [10], [82], [83], [85]] := by decide
+
 /-- A reply counts as success EXACTLY when its encapsulation status is 0 and its CIP general status is 0
     (or 6 for a connected reply to one of the services that legitimately continue), for every byte string. -/
 theorem valid_iff (tr : Transport) (raw : Bytes) :
